@@ -298,6 +298,8 @@ def iterator_discipline_for(prog, F, fn, outs):
         for u in uses:
             call = None
             for a in u.ancestors():
+                if a.k == 'UnaryOperator' and a.op == '&':
+                    break         # the address of the iterator is handed on: the callee advances this very object
                 if a.k in ex.CTOR_KINDS and a.callee and (a.callee.get('copy_ctor') or a.callee.get('move_ctor')):
                     continue      # the by-value copy made for the call
                 if a.k in ex.CALL_KINDS + ex.CTOR_KINDS:
@@ -682,6 +684,12 @@ def analyse_construct(prog, F, W, fn):
             if d.k == 'VarDecl' and d.c:
                 seq = ex.var_of(d.c[0])
     for n in (body.walk() if body is not None else ()):
+        if n.k == 'VarDecl' and n.c and seq is None and loop.k == 'ForStmt':
+            r0 = n.c[0].strip_all()
+            t0 = prog.base_type(n.j.get('t')) or {}
+            if r0.k == 'CXXOperatorCallExpr' and r0.op == '[]' and len(r0.c) == 3 and 'edge_desc_impl' in (t0.get('canon') or '') and ex.var_of(r0.c[1]) is not None:
+                seq = ex.var_of(r0.c[1])          # index loop over the scanned sequence
+                cur_edge_vars.add(n.decl_id)
         if n.k == 'VarDecl' and n.c and atom(W.world(n.c[0])) == 'G':
             t = prog.base_type(n.j.get('t')) or {}
             if 'edge_desc_impl' in (t.get('canon') or ''):
@@ -730,7 +738,12 @@ def analyse_construct(prog, F, W, fn):
             for s in inside:
                 dfs(s, cnt, seen | {s})
         dfs(first[0], 0, {first[0]})
-    if bad_paths:
+    deferred = [n for n in pushes if not loop.is_ancestor_of(n) and n.enclosing('ForStmt', 'WhileStmt', 'CXXForRangeStmt', 'DoStmt') is not None and cfg.reaches(loop, n)]
+    if bad_paths and bad_paths[0][0] == 0 and deferred and not [n for n in pushes if loop.is_ancestor_of(n)]:
+        # the dropped edges are recorded by a later pass (flags set in the scan, list filled afterwards): which edges that pass records is a
+        # value-level relation between the two loops
+        F.add('R15a', loop, fn, what, 'undecided', 'dropped edges are recorded by a second loop (line %d), not on the path that drops them' % deferred[0].line)
+    elif bad_paths:
         cnt, b = bad_paths[0]
         F.add('R15a', loop, fn, what, 'violation',
               'a path through the loop body performs %d retain/drop actions (block B%d): an edge is %s' % (
@@ -1035,7 +1048,9 @@ def analyse_construct(prog, F, W, fn):
                 custom_record.append(m)
             if m.k == 'CXXMemberCallExpr' and m.callee['name'] in ('insert', 'emplace') and evar is not None:
                 ow = W.world(m.object_arg())
-                if isinstance(ow, tuple) and ow[0] == 'kv' and any(ex.refs_var(a, evar) for a in m.args()) and \
+                is_edge_map = ((prog.base_type(m.object_arg().strip_all().j.get('t')) or {}).get('rec') or '') in ('std::map', 'std::unordered_map') and \
+                    ((prog.base_type(m.object_arg().strip_all().j.get('t')) or {}).get('canon') or '').count('edge_desc_impl') >= 2
+                if ((isinstance(ow, tuple) and ow[0] == 'kv') or is_edge_map) and any(ex.refs_var(a, evar) for a in m.args()) and \
                         any(any(ex.refs_var(a, cv) for cv in cur_edge_vars) for a in m.args()) and same_path:
                     recorded = True
         lossy = [x for x in _LOSSY_COPIES if x[0].fn is fn and loop.is_ancestor_of(x[0])]
@@ -1325,8 +1340,40 @@ def analyse_builder(prog, F, W, fn):
                         if t.k == 'CallExpr' and t.callee and t.callee['g'] == 'boost::get' and len(t.args()) == 2 and \
                                 ex.var_of(t.args()[1]) == ev and atom(W.world(t.args()[0])) == 'G':
                             ok = True
+            fold = None
+            if not ok:
+                # the weight may be folded over the finished list instead: accumulate(list.begin(), list.end(), W(), [](sum, e) { return sum + get(W_G, e); })
+                lv = ex.var_of(p.object_arg())
+                for a_ in f.walk():
+                    if a_.k == 'CallExpr' and a_.callee and a_.callee['g'] in ('std::accumulate', 'std::reduce') and len(a_.args()) >= 3:
+                        b0 = a_.args()[0].strip_all()
+                        if b0.k == 'CXXMemberCallExpr' and b0.callee and b0.callee['name'] in ('begin', 'cbegin') and ex.var_of(b0.object_arg()) == lv and lv is not None:
+                            fold = 'unknown'
+                            if len(a_.args()) >= 4:
+                                lam = ex.alias_of(f, a_.args()[3]) if a_.args()[3].strip_all().k == 'DeclRefExpr' else a_.args()[3].strip_all()
+                                lv_ = ex.var_of(a_.args()[3])
+                                if lam is not None and lam.k != 'LambdaExpr' and lv_ is not None and ex.unique_def(f, lv_) is not None:
+                                    lam = ex.unique_def(f, lv_).strip_all()
+                                for op in (lam.j.get('lambda_ops', ()) if lam is not None and lam.k == 'LambdaExpr' else ()):
+                                    lf = prog.fn_of_fref(op)
+                                    if lf is None or len(lf.param_ids) != 2:
+                                        continue
+                                    for r_ in ex.returns_of(lf):
+                                        e_ = r_.c[0].strip_all() if r_.c else None
+                                        if e_ is not None and e_.k == 'BinaryOperator' and e_.op == '+':
+                                            sides = [x.strip_all() for x in e_.c]
+                                            for (a0, a1) in ((sides[0], sides[1]), (sides[1], sides[0])):
+                                                if ex.var_of(a0) == lf.param_ids[0] and a1.k == 'CallExpr' and a1.callee and a1.callee['g'] == 'boost::get' and \
+                                                        len(a1.args()) == 2 and ex.var_of(a1.args()[1]) == lf.param_ids[1] and atom(W.world(a1.args()[0])) == 'G':
+                                                    fold = 'ok'
+                    if a_.k == 'CXXForRangeStmt' and a_.role('range') is not None and ex.var_of(a_.role('range')) == lv and lv is not None and fold is None:
+                        fold = 'unknown'
             if ok:
                 F.add('R05b', p, fn, whatp, 'ok', 'push_back(e); weight += get(W_G, e)')
+            elif fold == 'ok':
+                F.add('R05b', p, fn, whatp, 'ok', 'the finished list is folded with sum + get(W_G, e)')
+            elif fold == 'unknown':
+                F.add('R05b', p, fn, whatp, 'undecided', 'the weight is computed by a fold / loop over the finished list that is outside the idiom table')
             else:
                 F.add('R05b', p, fn, whatp, 'violation', 'no `+= get(caller map, %s)` next to the push_back' % (prog.vars[ev]['name'] if ev is not None else '?'),
                       key='R05b|%s|pairing' % fn.g)
